@@ -82,9 +82,11 @@ class SimpleMatcher(BaseMatcher):
         Note: In contrast with a regular HMM, this is not a probability density function, it needs
               to be a proper probability (thus values between 0.0 and 1.0).
         """
+        # Half-normal density normalized to 1 at distance 0: exp(-dist^2 / (2 * noise^2)).
+        # (Adding the log of the normalisation constant to halfnorm.logpdf can round to a value > 0.)
         if is_ne:
-            result = self.obs_noise_dist_ne.logpdf(dist) + self.obs_noise_logint_ne
+            result = -0.5 * (dist / self.obs_noise_ne) ** 2
         else:
-            result = self.obs_noise_dist.logpdf(dist) + self.obs_noise_logint
+            result = -0.5 * (dist / self.obs_noise) ** 2
         # print("logprob_obs: {} -> {:.5f} = {:.5f}".format(dist, result, math.exp(result)))
         return result, {}
